@@ -223,21 +223,19 @@ def execOp (fi : FieldInfo) (ofNat : Nat → F) (r : RunSt F) (toks : List Strin
     let x ← var a
     match x.ty with
     | .D bx =>
-      let (o, s) := lowerThanFixed s x.cell bx (((← parseNat? c) + 1) % fi.p); pure (r.push .B o s)
+      let (o, s) := leqFixed s x.cell bx (← parseNat? c) fi.p; pure (r.push .B o s)
     | _ => none
   | ["geqf", a, c] => do
     let x ← var a
     match x.ty with
     | .D bx =>
-      let (o, s) := lowerThanFixed s x.cell bx (← parseNat? c)
-      let (o, s) := not s o; pure (r.push .B o s)
+      let (o, s) := geqFixed s x.cell bx (← parseNat? c); pure (r.push .B o s)
     | _ => none
   | ["gtf", a, c] => do
     let x ← var a
     match x.ty with
     | .D bx =>
-      let (o, s) := lowerThanFixed s x.cell bx (((← parseNat? c) + 1) % fi.p)
-      let (o, s) := not s o; pure (r.push .B o s)
+      let (o, s) := greaterThanFixed s x.cell bx (← parseNat? c) fi.p; pure (r.push .B o s)
     | _ => none
   | ["bits", a, nb, canon] => do
     let (xs, s) := assignedToLeBits s (← cell a) (← optNat? nb) ((← parseNat? canon) ≠ 0)
